@@ -37,6 +37,10 @@ type Ext struct {
 	paramRootStored map[*Symbol]bool
 	objAlias map[*Symbol]*Term
 	objAliasAt map[*Symbol]aliasSite // where (instance, block) the copy was made
+	// fieldCells: a local struct that never leaves the function except as the pointer receiver / argument of callees
+	// that are inlined (an accumulator object with methods) is the bundle of its fields: one cell per field
+	fieldCells map[*Symbol][]*Symbol
+	cellLoopDepth map[*Symbol]int // number of enclosing loops at the allocation of a field cell
 }
 
 func NewExt(p *Prog, s *Store, cfg Config) *Ext {
@@ -45,7 +49,7 @@ func NewExt(p *Prog, s *Store, cfg Config) *Ext {
 	}
 	return &Ext{S: s, P: p, Cfg: cfg, cfgs: map[*ssa.Function]*funcCFG{}, cellCur: map[*Symbol]*Term{},
 		objOf: map[ssa.Value]*Symbol{}, globSym: map[*ssa.Global]*Symbol{}, funcSym: map[*ssa.Function]*Symbol{},
-		bltSym: map[string]*Symbol{}, paramRootStored: map[*Symbol]bool{}, objAlias: map[*Symbol]*Term{}, objAliasAt: map[*Symbol]aliasSite{}}
+		bltSym: map[string]*Symbol{}, paramRootStored: map[*Symbol]bool{}, objAlias: map[*Symbol]*Term{}, objAliasAt: map[*Symbol]aliasSite{}, fieldCells: map[*Symbol][]*Symbol{}}
 }
 
 func (x *Ext) und(format string, a ...interface{}) {
@@ -107,6 +111,8 @@ type aliasSite struct {
 }
 
 type Inst struct {
+	callSite ssa.Value // the call this instance was inlined for (nil at top level)
+	cellableBusy map[*ssa.Alloc]bool
 	X      *Ext
 	Fn     *ssa.Function
 	Args   []*Term
